@@ -422,9 +422,14 @@ fn run_slice_write(ctx: &mut RunCtx<'_>) -> Option<Violation> {
     let mut ok_ops = 0;
     for _ in 0..steps {
         let mut l = Lane::new(ctx.ch, 1);
-        // move the cursor sometimes (the tuple's cursor is the caller's)
-        if l.draw(3) == 0 {
-            pos = l.draw(total as u64 + 1) as usize;
+        // move the cursor sometimes (the tuple's cursor is the caller's: it may even stand past the end)
+        match l.draw(12) {
+            0..=3 => pos = l.draw(total as u64 + 1) as usize,
+            4 => {
+                pos = total + 1 + l.draw(20) as usize;
+                ctx.counters.inc("probe.cursor_strictly_past_the_end");
+            }
+            _ => {}
         }
         let op = l.draw(5);
         let src = draw_bytes(&mut l, 64);
@@ -450,6 +455,8 @@ fn run_slice_write(ctx: &mut RunCtx<'_>) -> Option<Violation> {
         let len = if op == 4 && l.draw(3) == 0 && src_fits { len.min(room + l.draw(2) as usize).min(stotal.saturating_sub(off)) } else { len };
         let v = l.draw(2) == 1;
         let fits = src_fits && pos + len <= total;
+        // zero-length request with the cursor strictly past the end: not judged (see the reader side)
+        let unspecified = len == 0 && pos > total;
         let name = ["write_bit", "write_bits", "write_bits_with_offset", "write_bits_with_len", "write_bits_with_offset_len"][op as usize];
         let cls = class(off, pos, len);
         let before_pos = pos;
@@ -476,6 +483,10 @@ fn run_slice_write(ctx: &mut RunCtx<'_>) -> Option<Violation> {
                     format!("C11/panic/slice/{name}/{}", if fits { "fits" } else if !src_fits { "source-too-short" } else { "destination-too-short" }),
                     format!("{name}(src {} bytes, off {off}, len {len}) at {before_pos} of {total} destination bits panicked: {} ({})", src.len(), pi.message, pi.location),
                 )
+            }
+            Ok(_) if unspecified => {
+                ctx.counters.inc("c11.zero_length_request_past_the_end_not_judged");
+                model = to_bits(&dst);
             }
             Ok(Ok(())) => {
                 if !fits {
@@ -537,7 +548,12 @@ fn run_readers(ctx: &mut RunCtx<'_>) -> Option<Violation> {
             // reposition
             match &mut rd {
                 Rd::Tuple(_, p) => {
-                    *p = l.draw(model.len() as u64 + 1) as usize;
+                    *p = if l.draw(6) == 0 {
+                        ctx.counters.inc("probe.cursor_strictly_past_the_end");
+                        model.len() + 1 + l.draw(20) as usize
+                    } else {
+                        l.draw(model.len() as u64 + 1) as usize
+                    };
                     pos = *p;
                 }
                 Rd::Bits(b) => {
@@ -586,6 +602,9 @@ fn run_readers(ctx: &mut RunCtx<'_>) -> Option<Violation> {
         };
         let avail = vis.saturating_sub(pos);
         let fits = dst_fits && len <= avail;
+        // a zero-length request with the cursor strictly past the end: the property does not say
+        // whether that "fits" (asn1rs answers Err); both answers are accepted, nothing is asserted
+        let unspecified = len == 0 && pos > vis;
         let name = ["read_bit", "read_bits", "read_bits_with_offset", "read_bits_with_len", "read_bits_with_offset_len"][op as usize];
         let store = if use_bits { "Bits" } else { "tuple" };
         let before = dst.clone();
@@ -624,6 +643,9 @@ fn run_readers(ctx: &mut RunCtx<'_>) -> Option<Violation> {
                     format!("C11/panic/{store}/{name}/{}", if fits { "fits" } else { "too-short" }),
                     format!("{name}(dst {dn} bytes, off {off}, len {len}) at {pos} of {vis} bits panicked: {} ({})", pi.message, pi.location),
                 )
+            }
+            Ok(_) if unspecified => {
+                ctx.counters.inc("c11.zero_length_request_past_the_end_not_judged");
             }
             Ok(Ok(())) => {
                 if !fits {
